@@ -314,16 +314,30 @@ impl<S: futures::AsyncRead + futures::AsyncWrite + Unpin> ConnectionReader<S> {
                         // Drop Rc borrow before awaiting
                         drop(announced_info_hashes);
 
-                        self.send_error_response(
-                            "Only one peer id can be used per torrent".into(),
-                            Some(ErrorResponseAction::Announce),
-                            Some(info_hash),
-                        )
-                        .await?;
+                        // Returning here would end the connection before the
+                        // writer has sent the error response. Let the writer
+                        // close the connection after sending it instead.
+                        let out_message = OutMessage::ErrorResponse(ErrorResponse {
+                            action: Some(ErrorResponseAction::Announce),
+                            failure_reason: "Only one peer id can be used per torrent".into(),
+                            info_hash: Some(info_hash),
+                        });
 
-                        return Err(anyhow::anyhow!(
-                            "Peer used more than one PeerId for a single torrent"
-                        ));
+                        let mut meta: OutMessageMeta = self.make_connection_meta(None).into();
+
+                        meta.close_connection = true;
+
+                        self.out_message_sender
+                            .send((meta, out_message))
+                            .await
+                            .map_err(|err| {
+                                anyhow::anyhow!(
+                                    "ConnectionReader: sending error response failed: {:#}",
+                                    err
+                                )
+                            })?;
+
+                        return std::future::pending().await;
                     }
                 }
                 Entry::Vacant(entry) => {
@@ -540,6 +554,12 @@ impl<S: futures::AsyncRead + futures::AsyncWrite + Unpin> ConnectionWriter<S> {
                     self.send_out_message(&out_message).await?;
                 }
             };
+
+            if meta.close_connection {
+                return Err(anyhow::anyhow!(
+                    "Peer used more than one PeerId for a single torrent"
+                ));
+            }
 
             yield_if_needed().await;
         }
